@@ -97,7 +97,7 @@ CHECKS = {
              "commands; the interleavings are forced on the real code through yield hooks before every "
              "lock acquisition and each run is validated by TLC against the linearizability trace "
              "specification Trace_KVLin (atomic compare-and-set, version growth, no lost update); "
-             "sequential histories against NunKV group VER (every version argument).",
+             "sequential histories against NunKV group VER (every version argument). Free-running rounds on top (real threads, no scheduler, no hook; Trace_Stress: order-independent consequences of the property, DESIGN A.19).",
         note="interleavings at the granularity of the yield hooks (before each Database.map / "
              "Watchers.map acquisition); quick tier samples up to 60 schedules per scenario; dev profile",
         technique="TLA+ linearizability trace spec + TLC trace validation; TLC-generated schedules forced by a cooperative scheduler",
@@ -113,7 +113,7 @@ CHECKS = {
              "disconnect never drops a subscription, highest-versioned notification is current. Plus MC_Watch "
              "(TLC, exhaustive): subscriptions across two databases with sessions that select the other "
              "database, unwatch, disconnect (leaving entries with a closed channel behind) and writes in "
-             "either database, run sequentially on the real node and judged by NunKV group WATCH.",
+             "either database, run sequentially on the real node and judged by NunKV group WATCH. Free-running rounds on top (real threads, no scheduler, no hook; Trace_Stress: order-independent consequences of the property, DESIGN A.19).",
         note="interleavings at yield-hook granularity; notifications attributed to writes by distinguishable "
              "values; a client never watches a key twice; channel capacity (100 lines) not exceeded",
         technique="TLA+ trace spec with call/linearisation/return indices + TLC trace validation; TLC-generated schedules",
@@ -125,7 +125,7 @@ CHECKS = {
              "value) validated against NunKV group NEWER+WATCH; every pair of writes from two clients "
              "under TLC-enumerated lock-level interleavings validated against Trace_KVLin (never refused, "
              "takes effect or is superseded only by a concurrent/later change, version grows, notified "
-             "exactly when the stored value changes).",
+             "exactly when the stored value changes). Free-running rounds on top (real threads, no scheduler, no hook; Trace_Stress: order-independent consequences of the property, DESIGN A.19).",
         note="replica part is covered by the cluster runs (C04) on newer databases; operation ids from a "
              "strictly increasing virtual clock",
         technique="TLA+ reference + linearizability trace spec, TLC trace validation; TLC-generated schedules",
